@@ -304,10 +304,51 @@ def _separators(ctx, rule):
     return c07.r1_separator_inclusion(ctx, rule)
 
 
+def r9_side_lists_are_plain(ctx, rule):
+    """--prefixcount describes the TRAINING list.  The other list run_trainer reads (the --multiword pre-training words, one
+    word per line) is read as plain lines whatever the flag says: read as count-prefixed, every line fails int() and is skipped
+    silently, so the plain and the collapsed form of the same training list no longer train the same ruleset (seed C19-o)."""
+    fn, cons = reader_constructions(ctx)
+    init = ctx.fn(TFI + 'TrainerFileInput.__init__')
+    ps = params(init)
+    flag = [p for p in ps if 'prefix' in p.lower()]
+    if len(flag) != 1:
+        ctx.unk(rule, TFI + 'TrainerFileInput.__init__', 'the count-prefix parameter of the reader is not identifiable (%s)' % ps)
+        return
+    flag = flag[0]
+    dflt = None
+    a = init.args
+    pos = a.posonlyargs + a.args
+    if flag in [x.arg for x in pos]:
+        i = [x.arg for x in pos].index(flag) - (len(pos) - len(a.defaults))
+        dflt = a.defaults[i] if i >= 0 else None
+    side = [c for c in cons if c[2].get('filename') != "program_info['training_file']"]
+    ok = True
+    for st, v, args in side:
+        val = args.get(flag)
+        if val == '<default>':
+            if dflt is None or const(dflt) is not False:
+                ok = False
+                ctx.bad(rule, TFI + 'TrainerFileInput.__init__', 'default of %s is %s' % (flag, U(dflt) if dflt is not None else None),
+                        'a reader built without the flag reads plain lines', None, init)
+        elif val == 'False':
+            pass
+        elif 'prefixcount' in val:
+            ok = False
+            ctx.bad(rule, RT, '%s = TrainerFileInput(%s): %s=%s' % (v, args.get('filename'), flag, val),
+                    'the word list given with --multiword is a plain list; read as count-prefixed its lines are skipped silently and the '
+                    'pre-training disappears exactly in the --prefixcount run', {'args': args}, st, firm=True)
+        else:
+            ok = False
+            ctx.unk(rule, RT, 'reader over %s built with %s=%s' % (args.get('filename'), flag, val))
+    if ok:
+        ctx.ok(rule, RT, '%d reader(s) over other lists than the training list, all plain (%s left at False)' % (len(side), flag))
+
+
 def rules(tier):
     return [('C19.R1', r1_three_passes), ('C19.R2', r2_password_count), ('C19.R3', r3_multiplicity_and_r6_strip),
             ('C19.R4', r4_skip_paths), ('C19.R5', r5_reader_encoding_and_eol),
-            ('C19.R6', _validated), ('C19.R7', r7_autodetect), ('C19.R8', _separators)]
+            ('C19.R6', _validated), ('C19.R7', r7_autodetect), ('C19.R8', _separators), ('C19.R9', r9_side_lists_are_plain)]
 
 
 META = {
